@@ -225,6 +225,12 @@ func (m *recoveryMessage) DecodeBinary(r *gob.Decoder) error {
 	if m.preparationPayloads == nil {
 		m.preparationPayloads = []preparationCompact{}
 	}
+	for i := range aux.PreCommitPayloads {
+		// GetPreCommits reads the data as 4-byte magic.
+		if len(aux.PreCommitPayloads[i].Data) != 4 {
+			return errors.New("wrong PreCommit data length")
+		}
+	}
 	m.preCommitPayloads = aux.PreCommitPayloads
 	m.commitPayloads = aux.CommitPayloads
 	if m.commitPayloads == nil {
